@@ -320,6 +320,11 @@ func (m *clientHelloMsg) MakeLog() *ClientHello {
 
 	ch.ServerName = m.serverName
 	ch.Scts = m.scts
+	ch.ExtendedMasterSecret = m.extendedMasterSecret
+	if len(m.extendedRandom) > 0 {
+		ch.ExtendedRandom = make([]byte, len(m.extendedRandom))
+		copy(ch.ExtendedRandom, m.extendedRandom)
+	}
 
 	ch.SupportedCurves = make([]CurveID, len(m.supportedCurves))
 	copy(ch.SupportedCurves, m.supportedCurves)
